@@ -3,15 +3,20 @@
 
     bmc-init <caps> <user hex> <pw hex> <priv> <tempSid> <challenge hex> <sid> <inSeq0>  -> ok
     bmc <datagram hex>                 -> reply <hex> | error <rule>        (Spec.BmcSession.step)
+    bmc-lost <datagram hex>            -> same judgement, but the datagram is lost: the monitor counts it, the
+                                          BMC does not act on it (Spec.BmcSession.stepLost); the answer is dropped
     bmc-err <cc> <datagram hex>        -> same judgement, but the answer carries completion code <cc>
     bmc-state                          -> <phase> <first broken rule | none>
-    model <pref s|i|g> <emptyRx s|i> <ignore 0|1> <user hex> <pw hex> <priv> <outSeq> <n>
+    model <pref s|i|g> <emptyRx s|i> <ignore 0|1> <max_retries> <closes 1|2|c> <user hex> <pw hex> <priv> <outSeq> <n>
           <sid0> <seq0> <act0 0|1> <rqSeq0> <reply hex | silent>*
         -> <outcome> | <kind>:<datagram hex> … | <auth> <sid> <seq> <activated> <rqSeq> <attached>
-          (Model.Session.lifecycle against the scripted replies)
+          (Model.Session.lifecycle against the scripted replies; with <closes> = 2 close_session() is called a
+           second time after a successful life cycle; with "c" it is called as clean-up after a failure of
+           establish_session / a request, provided the session object was attached)
     loop  <pref s|i|g> <caps> <user hex> <pw hex> <priv> <tempSid> <challenge hex> <sid> <inSeq0> <outSeq> <n>
+          <max_retries> <lost datagram numbers, comma separated | ->
         -> <outcome> | <phase> <first broken rule | none> | <number of datagrams>
-          (Model client against the Spec BMC, all in Lean)
+          (Model client against the Spec BMC behind a lossy network, all in Lean)
     choose <pref s|i|g> <support>      -> <auth type> | none                 (Model.Session.chooseAuth)
     strongest <support> <implemented,…>-> <auth type> | none                 (Spec: strongest offered ∩ implemented)
 -/
@@ -69,6 +74,13 @@ def handleC06 (ds : DState) (line : String) : DState × String :=
       | (st', .reply r) => ({ ds with st := st' }, "reply " ++ toHex r)
       | (st', .protocolError w) => ({ ds with st := st' }, "error " ++ w.name)
     | none => (ds, "bad-op")
+  | ["bmc-lost", dg] =>
+    match ofHex dg with
+    | some dg =>
+      match Spec.BmcSession.stepLost md5f ds.cfg ds.st dg with
+      | (st', .reply r) => ({ ds with st := st' }, "reply " ++ toHex r)
+      | (st', .protocolError w) => ({ ds with st := st' }, "error " ++ w.name)
+    | none => (ds, "bad-op")
   | ["bmc-err", cc, dg] =>
     match cc.toNat?, ofHex dg with
     | some cc, some dg =>
@@ -85,27 +97,36 @@ def handleC06 (ds : DState) (line : String) : DState × String :=
       | (st', .protocolError w) => ({ ds with st := st' }, "error " ++ w.name)
     | _, _ => (ds, "bad-op")
   | ["bmc-state"] => (ds, s!"{phaseName ds.st.phase} {badName ds.st.bad}")
-  | "model" :: pref :: er :: ig :: user :: pw :: priv :: outSeq :: n :: sid0 :: seq0 :: act0 :: rq0 :: replies =>
-    match ofHex user, ofHex pw, priv.toNat?, outSeq.toNat?, n.toNat?, sid0.toNat?, seq0.toNat?, rq0.toNat?,
+  | "model" :: pref :: er :: ig :: mr :: closes :: user :: pw :: priv :: outSeq :: n :: sid0 :: seq0 :: act0 :: rq0 :: replies =>
+    match mr.toNat?, ofHex user, ofHex pw, priv.toNat?, outSeq.toNat?, n.toNat?, sid0.toNat?, seq0.toNat?, rq0.toNat?,
           replies.mapM parseReply with
-    | some user, some pw, some priv, some outSeq, some n, some sid0, some seq0, some rq0, some replies =>
+    | some mr, some user, some pw, some priv, some outSeq, some n, some sid0, some seq0, some rq0, some replies =>
       let cfg : Cfg := { user := user, pw := pw, priv := priv, outSeq := outSeq, pref := prefOf pref,
-                         ignoreLen := ig == "1", emptyRx := if er == "s" then .asShipped else .intended }
+                         ignoreLen := ig == "1", emptyRx := if er == "s" then .asShipped else .intended,
+                         maxRetries := mr }
       let c0 : Client := ⟨false, ⟨Gen.RmcpFormats.authPassword, sid0, seq0, act0 == "1", pw⟩, rq0⟩
-      let r := lifecycle md5f scripted cfg n replies c0
+      let r1 := lifecycle md5f scripted cfg n replies c0
+      let r := if closes == "2" && r1.outcome.isOk then
+          let r2 := close md5f scripted cfg r1.peer r1.client
+          (⟨r2.peer, r2.client, r1.sent ++ r2.sent, r2.outcome⟩ : Result (List (Option (List Nat))))
+        else if closes == "c" && !r1.outcome.isOk && (r1.sent.getLast?.map Prod.fst) != some Kind.close then
+          cleanupClose md5f scripted cfg r1
+        else r1
       let c := r.client
       (ds, s!"{r.outcome.tag} | {showSent r.sent} | {c.s.auth} {c.s.sid} {c.s.seq} {b2n c.s.activated} {c.rqSeq} {b2n c.attached}")
-    | _, _, _, _, _, _, _, _, _ => (ds, "bad-op")
-  | ["loop", pref, caps, user, pw, priv, tmp, chal, sid, inSeq, outSeq, n] =>
+    | _, _, _, _, _, _, _, _, _, _ => (ds, "bad-op")
+  | ["loop", pref, caps, user, pw, priv, tmp, chal, sid, inSeq, outSeq, n, mr, lost] =>
     match caps.toNat?, ofHex user, ofHex pw, priv.toNat?, tmp.toNat?, ofHex chal, sid.toNat?, inSeq.toNat?,
-          outSeq.toNat?, n.toNat? with
-    | some caps, some user, some pw, some priv, some tmp, some chal, some sid, some inSeq, some outSeq, some n =>
+          outSeq.toNat?, n.toNat?, mr.toNat?, (if lost == "-" then some [] else parseNatList lost) with
+    | some caps, some user, some pw, some priv, some tmp, some chal, some sid, some inSeq, some outSeq, some n,
+      some mr, some lost =>
       let bcfg : Spec.BmcSession.BmcCfg := ⟨caps, user, pw, priv, tmp, chal, sid, inSeq⟩
       let cfg : Cfg := { user := user, pw := pw, priv := priv, outSeq := outSeq, pref := prefOf pref,
-                         ignoreLen := false, emptyRx := .asShipped }
-      let r := lifecycle md5f (bmcPeer bcfg) cfg n Spec.BmcSession.init (Client.fresh pw)
-      (ds, s!"{r.outcome.tag} | {phaseName r.peer.phase} {badName r.peer.bad} | {r.sent.length}")
-    | _, _, _, _, _, _, _, _, _, _ => (ds, "bad-op")
+                         ignoreLen := false, emptyRx := .asShipped, maxRetries := mr }
+      let r := lifecycle md5f (Spec.BmcSession.lossy md5f bcfg (fun i => lost.contains i)) cfg n
+        (0, Spec.BmcSession.init) (Client.fresh pw)
+      (ds, s!"{r.outcome.tag} | {phaseName r.peer.2.phase} {badName r.peer.2.bad} | {r.sent.length}")
+    | _, _, _, _, _, _, _, _, _, _, _, _ => (ds, "bad-op")
   | ["choose", pref, sup] =>
     match sup.toNat? with
     | some sup =>
